@@ -308,10 +308,12 @@ func (x *Run) checkGoShare(fn *ssa.Function) {
 			what := ""
 			for _, bd := range mc.Bindings {
 				if cell, ok := bd.(*ssa.Alloc); ok {
+					x.captureReader, _ = mc.Fn.(*ssa.Function)
 					if w := x.writtenAfter(fn, b, idx, cell); w != "" {
 						okAll = false
 						what = cell.Comment + " written at " + w
 					}
+					x.captureReader = nil
 				}
 			}
 			note := "variables captured by the stored callback are not written afterwards"
@@ -383,6 +385,13 @@ func (x *Run) writtenAfter(fn *ssa.Function, b *ssa.BasicBlock, idx int, cell *s
 		for {
 			switch v := a.(type) {
 			case *ssa.FieldAddr:
+				// a later store to a field of the captured object matters only if the
+				// callback (or what it calls) reads that field
+				if depth == 0 && x.captureReader != nil {
+					if pt, ok := v.X.Type().Underlying().(*types.Pointer); ok && !fieldReadBy(x.captureReader, pt.Elem(), v.Field, 0, map[*ssa.Function]bool{}) {
+						return false
+					}
+				}
 				a = v.X
 				depth++
 				continue
@@ -430,4 +439,48 @@ func (x *Run) writtenAfter(fn *ssa.Function, b *ssa.BasicBlock, idx int, cell *s
 		return ""
 	}
 	return scan(b, idx+1)
+}
+
+// fieldReadBy: fn, its function literals or its static callees inside frp load
+// field idx of struct type st.
+func fieldReadBy(fn *ssa.Function, st types.Type, idx int, depth int, seen map[*ssa.Function]bool) bool {
+	if fn == nil || seen[fn] || depth > 4 {
+		return false
+	}
+	seen[fn] = true
+	for _, b := range fn.Blocks {
+		for _, ins := range b.Instrs {
+			switch v := ins.(type) {
+			case *ssa.FieldAddr:
+				if pt, ok := v.X.Type().Underlying().(*types.Pointer); ok && types.Identical(pt.Elem(), st) && v.Field == idx && v.Referrers() != nil {
+					for _, r := range *v.Referrers() {
+						if u, ok := r.(*ssa.UnOp); ok && u.X == ssa.Value(v) {
+							return true
+						}
+						if _, isStore := r.(*ssa.Store); !isStore {
+							if _, isDbg := r.(*ssa.DebugRef); !isDbg {
+								return true // address escapes
+							}
+						}
+					}
+				}
+			case *ssa.Field:
+				if types.Identical(v.X.Type(), st) && v.Field == idx {
+					return true
+				}
+			case ssa.CallInstruction:
+				if callee := v.Common().StaticCallee(); callee != nil && strings.HasPrefix(pkgPathOf(callee), frpPrefix) {
+					if fieldReadBy(callee, st, idx, depth+1, seen) {
+						return true
+					}
+				}
+			}
+		}
+	}
+	for _, an := range fn.AnonFuncs {
+		if fieldReadBy(an, st, idx, depth+1, seen) {
+			return true
+		}
+	}
+	return false
 }
